@@ -47,11 +47,11 @@ UNITS['flag'] = dict(
 
 obl('C15.SET', 'flag::register (action closure)', 'after each of two deliveries, with arbitrary application writes before and between, the flag is true')
 obl('C15.SET-SIG', 'flag::register*', 'exactly one registration through the checked registry entry point, for the requested signal number, all c_int (so forbidden/invalid numbers get the registry verdict)', also=['C14'])
-obl('C15.SET-PURE', 'flag::register (action closure)', 'the flag action makes no system call')
+obl('C15.SET-PURE', 'flag::register (action closure)', 'the flag action makes no system call', also=['C03'])
 obl('C15.VALUE', 'flag::register_usize (action closure)', 'after each delivery the flag holds exactly the registered value (all usize)')
 obl('C15.EXIT-IFF', 'flag::register_conditional_shutdown (action closure)', '_exit is reached iff the condition loads true during that delivery; otherwise the delivery returns')
 obl('C15.STATUS', 'flag::register_conditional_shutdown (action closure)', 'the status passed to _exit equals the registered status, all c_int')
-obl('C15.ONLY-EXIT', 'flag::register_conditional_shutdown (action closure)', '_exit is the first and only libc call of the delivery (immediately)')
+obl('C15.ONLY-EXIT', 'flag::register_conditional_shutdown (action closure)', '_exit is the first and only libc call of the delivery (immediately)', also=['C03'])
 obl('C15.UNDERSCORE', 'low_level::exit', 'termination is by _exit, never exit()/abort() (no exit-time hooks)', never=True)
 obl('C15.NOOP', 'flag::register_conditional_shutdown (action closure)', 'condition false => no libc call at all')
 
@@ -88,7 +88,7 @@ REPLAYERS['C16.KIND'] = _R.replay_c16_kind
 HOOK_COMMITS = []
 _HIDE = ()
 NOT_APPLICABLE = {
- 'C03': 'no check of its own: its obligations (read side wait-free, no lock / no wait inside a delivery, reader counts balanced, one system call per built-in action) are discharged inside the C01/C02/C09/C13/C15 checks; "never allocates or frees" cannot be expressed (Kani implements the allocator in its C runtime, it cannot be stubbed) and "bounded steps wherever other threads are paused" reduces to C01/C08; see DESIGN.md 9.2',
+ 'C03-unused': 'no check of its own: its obligations (read side wait-free, no lock / no wait inside a delivery, reader counts balanced, one system call per built-in action) are discharged inside the C01/C02/C09/C13/C15 checks; "never allocates or frees" cannot be expressed (Kani implements the allocator in its C runtime, it cannot be stubbed) and "bounded steps wherever other threads are paused" reduces to C01/C08; see DESIGN.md 9.2',
 }
 for _p in ('C02', 'C04', 'C05', 'C14', 'C09', 'C10'):
     if _p in PROPS and _p in globals().get('_HIDE', ()):
@@ -137,10 +137,10 @@ UNITS['pipe'] = dict(
     rewrite=[('src/low_level/pipe.rs', r'\blibc::fcntl\(', 'verif_kani::fcntl3(', 2)],
     scan=[K + 'libc_model.rs', K + 'libc_shim.c'],
     harnesses={'c13_wake': dict(props=['C13', 'C03']), 'c13_register': dict(props=['C13', 'C14', 'C03'], auto_obl='C14.PIPE-NO-PANIC')})
-obl('C13.ONE-ATTEMPT', 'pipe::wake, action closure of pipe::register_raw', 'exactly one libc call per wake/delivery for every return value and errno; no loop')
+obl('C13.ONE-ATTEMPT', 'pipe::wake, action closure of pipe::register_raw', 'exactly one libc call per wake/delivery for every return value and errno; no loop', also=['C03'])
 obl('C13.ONE-BYTE', 'pipe::wake', 'length 1, to the registered fd')
 obl('C13.DONTWAIT', 'pipe::wake', 'Send => send(.., MSG_DONTWAIT); Write => write')
-obl('C13.DELIVERY-NONBLOCKING', 'pipe::register_raw + WakeFd::set_flags', 'method fits the descriptor kind: send+MSG_DONTWAIT only on sockets, write only after fcntl(F_SETFL, ..|O_NONBLOCK) succeeded, before register is reached')
+obl('C13.DELIVERY-NONBLOCKING', 'pipe::register_raw + WakeFd::set_flags', 'method fits the descriptor kind: send+MSG_DONTWAIT only on sockets, write only after fcntl(F_SETFL, ..|O_NONBLOCK) succeeded, before register is reached', also=['C03'])
 obl('C13.REJECT-INVALID', 'pipe::register_raw', 'invalid fd (send/fcntl fail with EBADF) => Err, register never reached')
 obl('C13.CLOSE-ON-ERR', 'pipe::register_raw', 'fcntl failure => Err, no write, fd closed once')
 obl('C13.CLOSE-ONCE', 'WakeFd::drop', 'exactly one close(fd), as the last event, when the action is dropped')
@@ -308,7 +308,7 @@ UNITS['backend_small_c12'] = dict(
     })
 FB = 'backend.rs: '
 obl('C09.SETUP', FB + 'PendingSignals::add_signal', 'accepted signal + registry Ok => Ok')
-obl('C09.STORE-THEN-WAKE', FB + 'action closure of PendingSignals::add_signal', 'per delivery: exactly [slot store, send(write_fd,_,1,MSG_DONTWAIT)] in this order')
+obl('C09.STORE-THEN-WAKE', FB + 'action closure of PendingSignals::add_signal', 'per delivery: exactly [slot store, send(write_fd,_,1,MSG_DONTWAIT)] in this order', also=['C03'])
 obl('C09.RIGHT-SLOT', FB + 'action closure', 'the slot written is slots[registered signal]', also=['C10'])
 obl('C09.SCAN-ALL', FB + 'Pending::next', 'no slot at or after the position is skipped; None only at the end')
 obl('C09.DRAIN-THEN-SCAN', FB + 'SignalDelivery::pending, flush', 'all recv()s precede the first slot examination; scan restarts at 0; drain stops at first recv <= 0', kind='bounded(K=2 successful recv per drain)')
@@ -372,6 +372,7 @@ UNITS['registry_hist'] = dict(
     harnesses={
         'c02_hist_order': dict(props=['C02', 'C05', 'C04'], kind='bounded', bound='bounded(one history shape: 3 actions on one symbolic signal, symbolic choice of the removed one)'),
         'c05_hist_two_signals': dict(props=['C05', 'C02', 'C04'], kind='bounded', bound='bounded(one history shape: two symbolic signals)'),
+        'c05_hist_reregister': dict(props=['C05', 'C02'], kind='bounded', bound='bounded(one history shape: register x2, remove one, register again)'),
     })
 # experiment: the same harnesses on the REAL std HashMap/BTreeMap (no map rewrite)
 UNITS['registry_real'] = dict(
@@ -390,7 +391,7 @@ UNITS['registry'] = dict(
         'c05_op_unregister_signal_small': dict(props=['C05', 'C18', 'C01', 'C02'], kind='bounded', bound=_SHAPE_S),
         'c05_op_register_occupied_small': dict(props=['C05', 'C02', 'C18', 'C01'], kind='bounded', bound=_SHAPE_S),
         'c04_op_register_vacant': dict(props=['C04', 'C05', 'C18'], kind='bounded', bound=_SHAPE_S),
-        'c02_op_handler': dict(props=['C02', 'C04', 'C03', 'C18'], kind='bounded', bound=_SHAPE_L),
+        'c02_op_handler': dict(props=['C02', 'C04', 'C03', 'C18'], kind='bounded', bound=_SHAPE_L, unwind_obl='C03.WAIT-FREE', auto_obl='C03.NO-PANIC'),
         'c14_op_register_refused': dict(props=['C14', 'C18'], kind='bounded', bound=_SHAPE_S),
         'c05_op_unregister': dict(props=['C05', 'C02', 'C18', 'C01'], tier='thorough', kind='bounded', bound=_SHAPE_L),
         'c05_op_unregister_signal': dict(props=['C05', 'C18', 'C01', 'C02'], tier='thorough', kind='bounded', bound=_SHAPE_L),
@@ -424,6 +425,9 @@ obl('C02.ID-MONO', FR + 'register_unchecked_impl + handler', 'the newest action 
 obl('C02.ORDER', FR + 'handler', 'log of a delivery == actions of that signal in the snapshot, each once, in id order', kind='bounded(state shape)')
 obl('C02.ONLY-SIG', FR + 'handler', 'actions of other signals never run', kind='bounded(state shape)')
 obl('C03.READ-BALANCED', FR + 'handler', 'reader counts restored, no mutex touched', kind='bounded(state shape)')
+obl('C03.WAIT-FREE', FR + 'handler', 'every loop of a delivery terminates within the unwinding bound from an arbitrary state: no loop waits for another thread (unwinding assertions)', kind='bounded(state shape)', also=['C02'])
+obl('C03.NO-PANIC', FR + 'handler', 'no panic / overflow / out-of-bounds reachable inside a delivery', kind='bounded(state shape)')
+obl('C03.NO-FREE', FR + 'handler', 'no last-reference drop (Arc::drop_slow never reached) inside a delivery', kind='bounded(state shape)')
 obl('C03.NO-LOCK', FR + 'handler', 'Mutex::lock is never reached inside a delivery', never=True, absent_ok=r'Mutex :: < T > :: lock -> delivery_lock_stub')
 obl('C03.NO-WAIT', FR + 'handler', 'yield_now / spin_loop never reached inside a delivery', never=True, absent_ok=r'yield_now -> delivery_wait_stub')
 obl('C14.CHECK-FIRST', FR + 'register, register_sigaction (register_sigaction_impl)', 'forbidden signal => panic before GlobalData::ensure (nothing touched); all c_int')
@@ -462,3 +466,8 @@ PROPS['C02']['units'] = ['registry', 'registry_hist']
 PROPS['C05']['units'] = ['registry', 'registry_hist']
 PROPS['C04']['units'] = ['registry']
 PROPS['C04']['units_thorough'] = ['registry_hist']
+
+PROPS['C03'] = dict(level='other', units=['half_lock', 'registry', 'pipe', 'flag', 'backend'],
+    trusted=_TR + L('A1', 'A7') + ['"never allocates or frees heap memory" is only covered as "never drops a last reference" (C03.NO-FREE) - a raw allocation inside a delivery cannot be observed: Kani implements the allocator in its C runtime and it cannot be stubbed', 'bounded steps "wherever every other thread is paused": the read side takes no value another thread must change (C03.READ-WAITFREE, C03.WAIT-FREE); validity of the snapshot it dereferences is C01'],
+    technique='frame/trace contracts on the dispatcher and every built-in action (no lock, no wait, no last-reference drop, reader counts balanced, exactly one non-blocking system call), Kani/CBMC',
+    explanation='The dispatcher, from an arbitrary bounded-shape registry state and arbitrary counter values, takes no lock, never yields/spins, terminates within the unwinding bound, drops no last reference and leaves the reader counts balanced; each built-in action is exactly its one atomic store / one non-blocking system call.')
